@@ -134,6 +134,11 @@ def run(ctx):
     ctx.ob("C18.transform-binding", "bind.__call__", ok, "placeholders must be filled from the call arguments in order", None, "src/vector/backends/awkward.py")
     t = af.method("awkward_transform", "__call__")
     tsrc = unparse(t) if t is not None else ""
+    # statements moved into private module-level helpers called from __call__ are read there (one level)
+    if t is not None:
+        for c_ in ast.walk(t):
+            if isinstance(c_, ast.Call) and isinstance(c_.func, ast.Name) and c_.func.id in af.functions:
+                tsrc += "\n" + unparse(af.functions[c_.func.id])
     need = ["for arg in args:", "awkward_arrays.append(arg)", "args2bind.append(_placeholder)", "args2bind.append(arg)",
             "bind(self.func, *args2bind)(*map(operator.attrgetter('data'), layouts))", "return ak.transform(transformer, *awkward_arrays)",
             "if not getattr(self.func, '__awkward_transform_allowed__', True):"]
